@@ -365,6 +365,13 @@ func regRecord(s *Summary, rng *rand.Rand, n int, out *traceWriter) {
 		for ; depth > 0; depth-- {
 			prog = append(prog, regStmt{Op: "exit"})
 		}
+		if t < 2 {
+			// two fixed programs first: a group whose chain is grown by single Use calls (spare capacity in its slice) with
+			// sibling routes that each bring one middleware of their own, more Use calls in between, nested once
+			use1, add1 := regStmt{Op: "use", Mw: 1}, func(p string) regStmt { return regStmt{Op: "add", Path: toks(p), Mw: 1} }
+			prog = []regStmt{{Op: "enter", Prefix: toks("/a"), Mw: t}, use1, use1, use1, add1("/x"), add1("y/"), add1("/{id}"), add1("/z/{n}"), use1, add1("w.v"),
+				{Op: "enter", Prefix: toks("b"), Mw: 0}, use1, add1("/x"), add1("/{id}"), {Op: "exit"}, add1("/q"), {Op: "add", Path: toks("/r"), Mw: 0}, {Op: "exit"}, add1("/x")}
+		}
 		// execute it, emitting every statement when it executes
 		log := [][]any{}
 		x := &regExec{r: rux.New(), log: &log, useCtl: rng.Intn(2) == 0}
